@@ -194,8 +194,18 @@ def r3(ctx):
     cg, ents, bodies = closure_bodies(ctx)
     nodes = set(b.path for b in bodies)
     comps = [c for c in sccs(nodes, cg.edges) if len(c) > 1 or any(v in cg.edges.get(v, ()) for v in c)]
+    import normalize
+    import pf as _pf
+    base = normalize.baseline()
+
+    def norm(c):
+        # closures count as their enclosing function; helpers that are new w.r.t. the reference
+        # table are part of whatever cycle they were extracted from
+        roots = set(_pf._root(v) for v in c)
+        return set(r for r in roots if not base or r in base)
+
     for c in comps:
-        known = any(c <= k or k <= c and c == k for k in KNOWN_CYCLES)
+        known = any(norm(c) and norm(c) <= norm(k) for k in KNOWN_CYCLES)
         ctx.check(known, "C05.R3", sorted(c)[0], "recursion:%d" % len(c),
                   "recursion on the analysed paths is only over the nesting of the (already parsed, depth-limited) JSON document: sections within sections", detail=str(sorted(c)))
     ctx.check(len(comps) >= 3, "C05.R3", "crate", "recursion:floor", "the known recursive cycles are recognised (non-vacuous)", detail=str(len(comps)))
